@@ -1627,3 +1627,7 @@ cdef class NNPS(NNPSBase):
         for name, arr in pa.properties.items():
             stride = pa.stride.get(name, 1)
             arr.c_align_array(indices, stride)
+
+        # The permutation may have moved ghost/remote particles ahead of
+        # local ones; restore the "real particles first" layout.
+        pa.align_particles()
